@@ -1,6 +1,6 @@
 (* C16 — property theorems.  Nothing but statements, `exact`, Print Assumptions. *)
 From Coq Require Import Permutation.
-From G16 Require Import Model Check Proofs ParseProofs Roundtrip WiringExpected Obligations.
+From G16 Require Import Model ModelChan Check Proofs ParseProofs Roundtrip ChanProofs WiringExpected Obligations.
 
 (* Applying a rule list computes the documented meaning: there is a chain of
    intermediate maps, each related to its predecessor by the pointwise
@@ -84,6 +84,65 @@ Theorem T16_list_oracle_sound : forall c, lcase_prop_ok c = true ->
   Specs (l_rules c) (l_start c) (l_final_req c) /\ Specs (l_rules c) (l_start c) (l_final_resp c).
 Proof. exact lcase_prop_ok_sound. Qed.
 Print Assumptions T16_list_oracle_sound.
+
+(* "Given with --header ...": the channels.  Rule strings written as a CSV-reading
+   channel needs them (plain ones as they are, anything with a comma or a quote, or the
+   empty string, in quotes with inner quotes doubled; several per occurrence separated by
+   commas) reach the element parser unchanged, one by one, in order of occurrence; the
+   list in effect is the element-wise parse, refused as a whole iff one element is
+   refused.  The CSV reader is modelled for arguments without CR and LF (hypothesis). *)
+Theorem T16_flags_transparent : forall groups env file,
+  groups <> [] -> Forall (fun g => g <> []) groups ->
+  forallb csv_in_domain (map csv_join groups) = true ->
+  rules_in_effect {| ci_flags := map csv_join groups; ci_env := env; ci_file := file |} =
+  parse_all (concat groups).
+Proof. exact (fun groups env file Hn HF _ => flags_transparent groups env file Hn HF). Qed.
+Print Assumptions T16_flags_transparent.
+
+Theorem T16_env_transparent : forall l file, l <> [] -> csv_in_domain (csv_join l) = true ->
+  rules_in_effect {| ci_flags := []; ci_env := csv_join l; ci_file := file |} = parse_all l.
+Proof. exact (fun l file Hn _ => env_transparent l file Hn). Qed.
+Print Assumptions T16_env_transparent.
+
+(* a config-file list is taken element by element, no quoting needed or understood *)
+Theorem T16_file_list_transparent : forall l,
+  rules_in_effect {| ci_flags := []; ci_env := []; ci_file := FileList l |} = parse_all l.
+Proof. exact file_list_transparent. Qed.
+Print Assumptions T16_file_list_transparent.
+
+Theorem T16_file_scalar_transparent : forall l, l <> [] -> csv_in_domain (csv_join l) = true ->
+  rules_in_effect {| ci_flags := []; ci_env := []; ci_file := FileScalar (csv_join l) |} = parse_all l.
+Proof. exact (fun l Hn _ => file_scalar_transparent l Hn). Qed.
+Print Assumptions T16_file_scalar_transparent.
+
+(* element-wise, all or nothing *)
+Theorem T16_parse_all_spec : forall ss rs,
+  parse_all ss = Some rs <-> Forall2 (fun s r => parse_rule s = Some r) ss rs.
+Proof. exact parse_all_spec. Qed.
+Print Assumptions T16_parse_all_spec.
+
+(* precedence: command line over environment over file *)
+Theorem T16_channel_precedence : forall a args c t env file env' file',
+  rules_in_effect {| ci_flags := a :: args; ci_env := env; ci_file := file |} =
+  rules_in_effect {| ci_flags := a :: args; ci_env := env'; ci_file := file' |} /\
+  rules_in_effect {| ci_flags := []; ci_env := c :: t; ci_file := file |} =
+  rules_in_effect {| ci_flags := []; ci_env := c :: t; ci_file := file' |}.
+Proof. exact (fun a args c t env file env' file' => conj (flags_hide_rest a args env file env' file') (env_hides_file c t file file')). Qed.
+Print Assumptions T16_channel_precedence.
+
+(* every rule the parser accepts can be given on the command line: its printed form,
+   quoted if need be, yields exactly that rule *)
+Theorem T16_every_rule_expressible : forall s r, parse_rule s = Some r ->
+  rules_in_effect {| ci_flags := [csv_enc1 (print_rule r)]; ci_env := []; ci_file := FileAbsent |} = Some [r].
+Proof. exact (fun s r H => one_rule_through_flag (print_rule r) r (parse_roundtrip s r ob_value_excludes_cr ob_empty_form_checks_name H)). Qed.
+Print Assumptions T16_every_rule_expressible.
+
+(* Non-vacuity for the channels: a quoted value with a comma, two occurrences *)
+Example T16_channel_example :
+  rules_in_effect {| ci_flags := [csv_join [b "Accept-Language: en-US,en;q=0.9"; b "-X-B"]; b "X-C;"];
+                     ci_env := b "X-Shadowed: 1"; ci_file := FileAbsent |} =
+  Some [mk 3 (b "Accept-Language") (b "en-US,en;q=0.9"); mk 0 (b "X-B") []; mk 2 (b "X-C") []].
+Proof. exact eq_refl. Qed.
 
 (* Non-vacuity: a concrete non-trivial rule list and map meet the hypotheses. *)
 Example T16_example :
